@@ -57,6 +57,9 @@ def label(array, Bc=None, out=None, output=None):
         Number of objects
     '''
     output = _get_output(array, out, 'labeled.label', np.int32, output=output)
+    if np.may_share_memory(Bc, output):
+        # `output` is overwritten with the binarised image before the structuring element is read
+        Bc = Bc.copy()
     output[:] = (array != 0)
     Bc = get_structuring_elem(output, Bc)
     nr_objects = _labeled.label(output, Bc)
